@@ -101,6 +101,7 @@ int main(int argc, char ** argv) {
                 long nobj = tmpl == 0 ? 0 : tmpl == 1 ? 1 : (C <= 17 ? 6 : 40);
                 long big = tmpl == 3 ? (C <= 17 ? 300 : 3 * std::min<long>(C, 0x30000)) : 200;
                 std::string fn = dir + "/w_" + std::to_string(idx++) + ".blf";
+                alarm(120);      // a session that does not end kills the driver: the check reports the failure
                 std::vector<uint8_t> truth;
                 long n115 = 0;
                 FileStatistics want;
@@ -117,10 +118,11 @@ int main(int argc, char ** argv) {
                     f.fileStatistics.apiNumber = (uint32_t) rng();
                     f.fileStatistics.compressionLevel = (uint8_t) level;
                     f.fileStatistics.measurementStartTime.year = (uint16_t) rng();
-                    f.fileStatistics.measurementStartTime.milliseconds = (uint16_t) rng();
-                    f.fileStatistics.lastObjectTime.day = (uint16_t) rng();
                     want = f.fileStatistics;
                     f.open(fn.c_str(), std::ios_base::out);
+                    // some header fields are only known later: set after open() ...
+                    f.fileStatistics.measurementStartTime.milliseconds = want.measurementStartTime.milliseconds = (uint16_t) rng();
+                    f.fileStatistics.applicationBuild = want.applicationBuild = (uint32_t) rng();
                     for (long i = 1; i <= nobj; i++) {
                         ObjectHeaderBase * ob = make_obj(rng, (int) (rng() % 5), i, big);
                         std::vector<uint8_t> e = kit::encode(*ob);
@@ -128,6 +130,8 @@ int main(int argc, char ** argv) {
                         if (ob->objectType == ObjectType::Unknown115) n115++;
                         f.write(ob);
                     }
+                    // ... or just before close()
+                    f.fileStatistics.lastObjectTime.day = want.lastObjectTime.day = (uint16_t) rng();
                     f.close();
                 }
                 kit::write_file(fn + ".payload", truth);
